@@ -292,11 +292,6 @@ Proof.
   exists e, sz, pj. repeat split; try assumption; rewrite set_last_nth; try assumption; lia.
 Qed.
 
-Lemma firstn_app_exact : forall (A : Type) (l r : list A), firstn (length l) (l ++ r) = l.
-Proof. intros. rewrite firstn_app, Nat.sub_diag, firstn_all. simpl. apply app_nil_r. Qed.
-
-Lemma nth_error_app_exact : forall (A : Type) (l r : list A) x, nth_error (l ++ x :: r) (length l) = Some x.
-Proof. intros. rewrite nth_error_app2 by lia. rewrite Nat.sub_diag. reflexivity. Qed.
 
 (* the state after splitBin at position fns P + j of the node P *)
 Lemma split_T : forall L P cb fl v s j w ps', 1 <= L -> node_ok (L - 1) P ->
